@@ -30,9 +30,15 @@ fn weighted(rng: &mut SplitMix, w: &[u32]) -> usize {
 pub fn edit_text(rng: &mut SplitMix, text: &mut String) {
     match rng.below(20) {
         0..=10 => {
-            // type one to three more characters
-            for _ in 0..1 + rng.below(3) {
-                text.push(PAT_ALPHA[rng.below(PAT_ALPHA.len() as u64) as usize] as char);
+            // type one to three more characters; a third of the time one of the sequences whose
+            // meaning depends on their position (markers, escapes) — the append heuristic of
+            // MultiPattern::reparse has to get exactly these right
+            if rng.below(3) == 0 {
+                text.push_str(pick(rng, &["$", "\\", "\\$", " ", "\\ ", "!", "^", "'", "$$", "\\$$"]));
+            } else {
+                for _ in 0..1 + rng.below(3) {
+                    text.push(PAT_ALPHA[rng.below(PAT_ALPHA.len() as u64) as usize] as char);
+                }
             }
         }
         11..=13 => {
@@ -51,8 +57,35 @@ pub fn edit_text(rng: &mut SplitMix, text: &mut String) {
     }
 }
 
-fn item_texts(rng: &mut SplitMix, cols: u32) -> Vec<String> {
-    (0..cols).map(|_| rstr(rng, ITEM_ALPHA, 1, 6)).collect()
+/// Item texts: random, or (a third of the time, when the script edits patterns) derived from
+/// the pattern texts the script is going to type — haystacks that are "about" the needles are
+/// what separates a pattern from its neighbours (`^\$` vs `^\$$`), random strings almost never do.
+fn item_texts(rng: &mut SplitMix, cols: u32, pool: &[String]) -> Vec<String> {
+    (0..cols)
+        .map(|_| {
+            if !pool.is_empty() && rng.below(3) == 0 {
+                pick(rng, pool)
+            } else {
+                rstr(rng, ITEM_ALPHA, 1, 6)
+            }
+        })
+        .collect()
+}
+
+/// Haystack candidates derived from one pattern text.
+fn haystacks_for(text: &str, out: &mut Vec<String>) {
+    for raw in text.split(' ') {
+        if raw.is_empty() {
+            continue;
+        }
+        let core = raw.trim_start_matches(['!', '^', '\'']).trim_end_matches('$');
+        let unescaped = raw.replace("\\$", "$").replace("\\ ", " ").replace('\\', "");
+        for c in [raw.to_string(), core.to_string(), unescaped.clone(), format!("{core}a"), format!("b{core}"), format!("{unescaped} "), format!(" {raw}")] {
+            if !c.is_empty() && c.len() <= 12 && !out.contains(&c) {
+                out.push(c);
+            }
+        }
+    }
 }
 
 #[allow(dead_code)]
@@ -81,7 +114,7 @@ fn weights(focus: &str) -> Weights {
     }
 }
 
-fn writer_ops(rng: &mut SplitMix, w: &Weights, cols: u32, gate: u32, cap: Option<u32>) -> Vec<WOp> {
+fn writer_ops(rng: &mut SplitMix, w: &Weights, cols: u32, gate: u32, cap: Option<u32>, pool: &[String]) -> Vec<WOp> {
     let n = 1 + rng.below(5);
     let mut ops = Vec::new();
     for _ in 0..n {
@@ -98,9 +131,9 @@ fn writer_ops(rng: &mut SplitMix, w: &Weights, cols: u32, gate: u32, cap: Option
         match rng.below(10) {
             0..=4 => {
                 if faulty && rng.below(2) == 0 {
-                    ops.push(WOp::PushPanic { texts: item_texts(rng, cols) })
+                    ops.push(WOp::PushPanic { texts: item_texts(rng, cols, pool) })
                 } else {
-                    ops.push(WOp::Push { texts: item_texts(rng, cols) })
+                    ops.push(WOp::Push { texts: item_texts(rng, cols, pool) })
                 }
             }
             5..=7 => {
@@ -111,7 +144,7 @@ fn writer_ops(rng: &mut SplitMix, w: &Weights, cols: u32, gate: u32, cap: Option
                 } else {
                     pick(rng, &[1u64, 2, 2, 3, 5, 8])
                 };
-                let items: Vec<Vec<String>> = (0..len).map(|_| item_texts(rng, cols)).collect();
+                let items: Vec<Vec<String>> = (0..len).map(|_| item_texts(rng, cols, pool)).collect();
                 let (lie, panic_at) = if faulty {
                     match rng.below(5) {
                         0 => (Lie::Long(pick(rng, &[1u32, 3, 32, 70, 200])), None),
@@ -146,9 +179,20 @@ pub fn nucleo_script(rng: &mut SplitMix, focus: &str, thorough: bool) -> NucleoS
         _ => Some(pick(rng, &[0u32, 1, 31, 32, 33, 100, 1024])),
     };
     let nw = w.writers.0 + rng.below(w.writers.1 - w.writers.0 + 1);
-    let writers: Vec<Vec<WOp>> = (0..nw).map(|k| writer_ops(rng, &w, columns, k as u32, capacity)).collect();
     let n_ops = if thorough { 8 + rng.below(24) } else { 6 + rng.below(14) };
+    // the pattern texts this script is going to type are planned first: items are partly derived
+    // from them
     let mut texts = vec![String::new(); columns as usize];
+    let mut edit_plan: Vec<(usize, String)> = Vec::new();
+    let mut pool: Vec<String> = Vec::new();
+    for _ in 0..n_ops {
+        let c = rng.below(columns as u64) as usize;
+        edit_text(rng, &mut texts[c]);
+        haystacks_for(&texts[c], &mut pool);
+        edit_plan.push((c, texts[c].clone()));
+    }
+    let mut edit_plan = edit_plan.into_iter();
+    let writers: Vec<Vec<WOp>> = (0..nw).map(|k| writer_ops(rng, &w, columns, k as u32, capacity, &pool)).collect();
     let mut ui = Vec::new();
     let mut spawned = 0u32;
     // most scripts start by getting writers going
@@ -171,9 +215,8 @@ pub fn nucleo_script(rng: &mut SplitMix, focus: &str, thorough: bool) -> NucleoS
                 }
             }
             4 => {
-                let c = rng.below(columns as u64) as usize;
-                edit_text(rng, &mut texts[c]);
-                UiOp::Reparse { col: c as u32, text: texts[c].clone() }
+                let (c, t) = edit_plan.next().expect("one planned edit per op");
+                UiOp::Reparse { col: c as u32, text: t }
             }
             5 => UiOp::Tick { timeout: pick(rng, &[0u64, 0, 1, 10, 50]) },
             6 => UiOp::TickUntilIdle { max: 6 },
